@@ -112,6 +112,36 @@ def run_neutral_patch(args: Tuple[str, str, str]) -> Dict:
         shutil.rmtree(tmp, ignore_errors=True)
 
 
+TRANSFORMS = ("unparse_round_trip", "alpha_rename_reverse_methods", "return_temps_flip_if", "rename_private_params", "flip_comparisons_swap_products")
+
+
+def run_transform(args: Tuple[str, str, str]) -> Dict:
+    """A WHOLE-PACKAGE behaviour-preserving rewrite (tools/transforms/<name>.py, see DESIGN 8.7) of a scratch copy: every local
+    renamed, every return through a temporary, every comparison flipped ...  The property's rules must stay silent."""
+    repo_root, name, prop = args
+    tmp = tempfile.mkdtemp(prefix="cubeverif_tr_")
+    rid = "transform/" + name
+    try:
+        shutil.copytree(os.path.join(repo_root, "src"), os.path.join(tmp, "src"))
+        if name == "unparse_round_trip":
+            code = "import ast, pathlib\nfor p in pathlib.Path('src/cr/cube').rglob('*.py'):\n    p.write_text(ast.unparse(ast.parse(p.read_text())) + '\\n')\n"
+            p = subprocess.run([sys.executable, "-c", code], cwd=tmp, capture_output=True, text=True, timeout=300)
+        else:
+            script = os.path.join(VERIF_ROOT, "tools", "transforms", name + ".py")
+            if not os.path.exists(script):
+                return {"id": rid, "prop": prop, "kind": "N", "status": "skipped", "why": "transform script not found"}
+            p = subprocess.run([sys.executable, script], cwd=tmp, capture_output=True, text=True, timeout=300)
+        if p.returncode != 0:
+            return {"id": rid, "prop": prop, "kind": "N", "status": "skipped", "why": "transform failed: " + p.stderr[-120:]}
+        env = dict(os.environ, CUBEVERIF_SELFTEST="1")
+        p = subprocess.run([sys.executable, "-m", "cubeverif.cli", prop, "quick", "--repo", tmp], cwd=VERIF_ROOT, env=env, capture_output=True, text=True, timeout=300)
+        status = {0: "silent", 1: "fired", 2: "analysis-error"}.get(p.returncode, f"rc{p.returncode}")
+        und = sum(1 for l in p.stdout.splitlines() if l.startswith("UNDECIDED"))
+        return {"id": rid, "prop": prop, "kind": "N", "status": status, "undecided": und}
+    finally:
+        shutil.rmtree(tmp, ignore_errors=True)
+
+
 def neutral_for(prop: str) -> List[str]:
     """The five behaviour-preserving edits written for this property's anchors (see DESIGN 8.7)."""
     out = []
@@ -154,6 +184,8 @@ def run_for_property(repo_root: str, prop: str, workers: int = 16) -> Dict:
         for r in ex.map(run_seeded, [(repo_root, sid, prop) for sid in seeded_for(prop)]):
             results.append(r)
         for r in ex.map(run_neutral_patch, [(repo_root, rel, prop) for rel in neutral_for(prop)]):
+            results.append(r)
+        for r in ex.map(run_transform, [(repo_root, name, prop) for name in TRANSFORMS]):
             results.append(r)
     b = [r for r in results if r["kind"] == "B" and r["status"] != "skipped"]
     n = [r for r in results if r["kind"] == "N" and r["status"] != "skipped"]
